@@ -22,7 +22,10 @@ RoundUp(x, k) == ((x + k - 1) \div k) * k
 
 Configs == {c \in [M : 1..MaxM, dL : 0..2, nodes : NodeRules, spacing : Spacings,
                    impl : {"real", "fast"}, mult : Mults] :
-              (c.impl = "real" => c.mult = 1)}
+              /\ (c.impl = "real" => c.mult = 1)
+              (* "fine": many latitude rows over a small truncation (rows within a fraction of a degree of the
+                 poles exist only at high meridional resolution); one truncation suffices *)
+              /\ (c.nodes = "fine" => (c.M = 2 /\ c.dL = 2 /\ c.mult = 1 /\ c.spacing # "equiangular_with_poles"))}
 L(c) == c.M + c.dL
 (* node counts: with_wavenumbers(quadratic / linear), the T*-style rule I = 4g, J = 2g with the
    smallest g resolving the truncation linearly, and a deliberately under-resolved grid *)
@@ -30,10 +33,12 @@ LonNodes(c) == CASE c.nodes = "quadratic" -> 3 * c.M + 1
                  [] c.nodes = "linear" -> 2 * c.M + 1
                  [] c.nodes = "construct" -> 4 * ((L(c) + 1) \div 2)
                  [] c.nodes = "under" -> 2 * c.M
+                 [] c.nodes = "fine" -> 3 * c.M + 1
 LatNodes(c) == CASE c.nodes = "quadratic" -> (3 * c.M + 2) \div 2
                  [] c.nodes = "linear" -> c.M + 1
                  [] c.nodes = "construct" -> 2 * ((L(c) + 1) \div 2)
                  [] c.nodes = "under" -> IF L(c) > 2 THEN L(c) - 1 ELSE 2
+                 [] c.nodes = "fine" -> 560
 
 Labels(c) == {<<m, l, s>> \in (0..c.M - 1) \X (0..L(c) - 1) \X {"c", "s"} :
                  m <= l /\ (s = "s" => m > 0)}
